@@ -348,7 +348,7 @@ class ValidateSlots(Contract):
         sp = self.spec
         ctx.assume(sp.sb_base(b.term, "e"))
         ctx.assume(sp.after_def(b.term, S.member, "e"))
-        ctx.ghost.update(b=b, S=S.member, V0=V0)
+        ctx.ghost.update(b=b, S=S.member, V0=V0, S_obj=S)
         return {"args": [b, S, visited]}
 
     # ---- loop 0: ops -------------------------------------------------------------------------------------------------------------
@@ -436,6 +436,10 @@ class ValidateSlots(Contract):
         b, S, V0 = g["b"].term, g["S"], g["V0"]
         sp = self.spec
         V1 = self.final_V(I, st)
+        # frame: the set the caller passed in is the caller's own view of "stored so far" (it hands the same object to every successor):
+        # the call works on a private copy and leaves it as it was
+        so = g["S_obj"]
+        ctx.oblige("post/callers-slot-set-not-modified", z3.BoolVal(True) if so.member is S else (so.member == S))
         ctx.oblige("post/visited-only-grows", sp.mono(V0, V1, "p"))
         ctx.oblige("post/own-bad-loads-reported", sp.local_rep(b, S, r.rep, tag="p"))
         ctx.oblige("post/own-successors-visited", z3.Implies(z3.Not(ISTERM(b)), sp.succ_in(b, S, V1, tag="p")))
